@@ -152,6 +152,10 @@ theorem execPhase_ok {PS PD : Cmd → Prop} (sc : Scenario) (ctx : Ctx) (A : All
   | some e => exact mkResult_ok h1 _ _
   | none =>
     simp only
+    by_cases hb : barrierFails sc ctx del (x1.sendDest (.marker .copying)) = true
+    · simp only [hb, ↓reduceIte]
+      exact mkResult_ok (h1.sendDest _ (A.dMarker _)) _ _
+    simp only [hb, Bool.false_eq_true, ↓reduceIte]
     have h2 := copyLoop_ok ctx A sc.errAtPoll sc.files cpy.iter (x1.sendDest (.marker .copying)) st1 (h1.sendDest _ (A.dMarker _))
     generalize copyLoop ctx sc.errAtPoll sc.files cpy.iter (x1.sendDest (.marker .copying)) st1 = r2 at h2
     obtain ⟨e2, x2, st2⟩ := r2
